@@ -45,7 +45,7 @@ func buildDocumentIdentifier(doc *spdx23.Document) string {
 
 // ParseStream reads an io.Reader to parse an SPDX 2.3 document from it
 func (u *SPDX23) Unserialize(r io.Reader, _ *native.UnserializeOptions, _ interface{}) (*sbom.Document, error) {
-	spdxDoc, err := spdxjson.Read(r)
+	spdxDoc, err := readSPDXJSON(r)
 	if err != nil {
 		return nil, fmt.Errorf("parsing SPDX json: %w", err)
 	}
@@ -105,6 +105,18 @@ func (u *SPDX23) Unserialize(r io.Reader, _ *native.UnserializeOptions, _ interf
 	}
 
 	return bom, nil
+}
+
+// readSPDXJSON decodes the SPDX document converting panics of the decoder
+// (for example on a null entry in the packages list) into errors.
+func readSPDXJSON(r io.Reader) (doc *spdx23.Document, err error) {
+	defer func() {
+		if p := recover(); p != nil {
+			doc = nil
+			err = fmt.Errorf("decoding SPDX document: %v", p)
+		}
+	}()
+	return spdxjson.Read(r)
 }
 
 // packageToNode assigns the data from an SPDX package into a new Node
